@@ -3,6 +3,7 @@ import AnySyncModel.Driver.App
 import AnySyncModel.Driver.StreamPool
 import AnySyncModel.Driver.OCache
 import AnySyncModel.Driver.Deletion
+import AnySyncModel.Driver.Tree
 /-!
 `modeld <area>`: reads one operation per line on stdin, prints exactly one line per operation.
 Stateless areas expose `step : String → String`; stateful areas expose
@@ -34,4 +35,5 @@ def main (args : List String) : IO UInt32 := do
   | ["streampool"] => loopState stdin stdout Driver.StreamPool.step {}; return 0
   | ["ocache"] => loopState stdin stdout Driver.OCache.step Driver.OCache.init; return 0
   | ["deletion"] => loopState stdin stdout Driver.Deletion.step Driver.Deletion.init; return 0
+  | ["tree"] => loopPure stdin stdout Driver.Tree.step; return 0
   | _ => IO.eprintln s!"modeld: unknown area {args}"; return 2
